@@ -207,7 +207,14 @@ pub fn worker_main(mon: &dyn Monitor, out: &mut std::fs::File) {
         let count: u64 = parts[2].parse().unwrap();
         for idx in start..start + count {
             let _ = writeln!(out, "@@B {} {}", kind, idx);
-            let r = mon.run_case(kind, idx);
+            let mut r = mon.run_case(kind, idx);
+            // the case coordinates are what --replay needs
+            for v in r.violations.iter_mut() {
+                if let Some(o) = v.replay.as_object_mut() {
+                    o.insert("case_kind".into(), json!(kind));
+                    o.insert("case_idx".into(), json!(idx));
+                }
+            }
             let j = result_to_json(kind, idx, &r);
             let _ = writeln!(out, "@@R {}", j);
         }
